@@ -1,5 +1,6 @@
 """C02 Decoding arbitrary bytes never panics, overflows the stack or over-allocates."""
 from .decode_common import *
+from ..panics import run_e1
 
 
 def run(ctx):
@@ -12,5 +13,7 @@ def run(ctx):
     check_recursion(ctx)
     n = check_allocations(ctx, exact=False)
     r.floor('alloc-limit', 'allocation_sites', n, 6)
+    # (c) E1 over the decoder reachable set; 64-bit products of input values are included (wide=True)
+    run_e1(ctx, DECODE_ROOTS, rule='E1-panic', wide='mul')
     r.floor('W1-depth-lock', 'decoder_sccs', r.counts.get('decoder_sccs', 0), 2)
     r.floor('W1-depth-lock', 'depth_lock_sites', r.counts.get('depth_lock_sites', 0), 2)
